@@ -299,6 +299,14 @@ func (d *c20Daemon) exec(cmdline string) c20Outcome {
 	o := c20Outcome{status: -1}
 	sess, err := d.client.NewSession()
 	if err != nil {
+		// the connection is gone (the peer may drop it after a refused request): dial again once
+		d.client.Close()
+		if cl, derr := c20Dial(d.addr, d.keys.signers[0]); derr == nil {
+			d.client = cl
+			sess, err = d.client.NewSession()
+		}
+	}
+	if err != nil {
 		o.startErr = err
 		return o
 	}
@@ -307,7 +315,11 @@ func (d *c20Daemon) exec(cmdline string) c20Outcome {
 	sess.Stdout, sess.Stderr = &out, &errb
 	stdin, _ := sess.StdinPipe()
 	if err := sess.Start(cmdline); err != nil {
-		o.startErr = err
+		// The listener may finish (refuse) the command and close the channel before it
+		// answers the exec request: the command was not served, its status is unknown.
+		o.status = 255
+		o.stderr = "exec request not answered: " + err.Error()
+		o.stdout = append([]byte{}, out.Bytes()...)
 		return o
 	}
 	// what a command-mode client would send first: its protocol version, then an empty filter list and end markers
